@@ -27,6 +27,12 @@ CC = [["Cache-Control", "max-age=100000"]]
 
 
 # ------------------------------------------------------------------ scenarios
+# Five URLs are cached per scenario: U, V (same host, sibling of U), W (other host name), and two URLs that textually
+# extend U: P = U + "/17" and Q = U + "/17x" (so U is a proper prefix of P and Q, and P a proper prefix of Q that does not
+# end at a segment boundary). The unsafe request goes to U or to P ("reqat"); the headers name any of the five.
+CHILD_P, CHILD_Q = "17", "17x"
+
+
 def gen_scenarios(rng, n):
     out = []
     for k in range(n):
@@ -37,9 +43,10 @@ def gen_scenarios(rng, n):
             r = rng.random()
             if r < 0.2:
                 return None
-            form = rng.choice(PLAIN_FORMS) if rng.random() < 0.62 else rng.choice(QUIRK_FORMS)
-            return {"form": form, "target": rng.choice(["V", "V", "V", "W", "W", "U"]), "var": rng.randrange(10)}
-        s = {"method": m, "status": st, "hostmode": rng.randrange(2), "loc": ref(), "cloc": ref()}
+            form = rng.choice(PLAIN_FORMS + ["seg", "seg"]) if rng.random() < 0.66 else rng.choice(QUIRK_FORMS)
+            return {"form": form, "target": rng.choice(["V", "V", "V", "W", "W", "U", "P", "P", "Q", "Q"]), "var": rng.randrange(10)}
+        s = {"method": m, "status": st, "hostmode": rng.randrange(2), "reqat": "P" if rng.random() < 0.3 else "U",
+             "loc": ref(), "cloc": ref()}
         if rng.random() < 0.5:
             s[rng.choice(["loc", "cloc"])] = None
         out.append(s)
@@ -51,28 +58,50 @@ def hosts(s, port):
     return (a, b) if s.get("hostmode", 0) == 0 else (b, a)
 
 
+def rel_of(tgt, reqat, c):
+    """a relative-path reference (no dot segments) from the request URL to the target, or None if there is none.
+    U = /rid/S/{segU}; P = U/17; Q = U/17x; V, W = /rid/S/segV, /rid/S/segW"""
+    child = {"P": CHILD_P, "Q": CHILD_Q}
+    if reqat == "U":                                   # base directory /rid/S/
+        if tgt in child: return "{segU}/" + child[tgt]
+        return {"U": "{segU}", "V": c["segV"], "W": c["segW"]}[tgt]
+    if tgt in child:                                   # base directory U/
+        return child[tgt]
+    return None
+
+
+def updir_of(tgt, reqat, c):
+    """the same target through a '..' segment"""
+    child = {"P": "/" + CHILD_P, "Q": "/" + CHILD_Q, "U": ""}
+    seg = {"V": c["segV"], "W": c["segW"]}.get(tgt, "{segU}" + child.get(tgt, ""))
+    return ("../S/" if reqat == "U" else "../") + seg
+
+
 def ref_text(r, s, c):
-    """the header value: `form` applied to the target URL (c = concrete scenario data)"""
+    """the header value: `form` applied to the target URL (c = concrete scenario data); {pU} / {segU} stand for the path and
+    last segment of U and are substituted by the origin stub (U's own path contains this text)"""
     if r is None:
         return None
     if "text" in r:                                    # literal (corpus), {H} {H2} {pU} {pV} {pW} substituted
         t = r["text"]
-        for k in ("H", "H2", "pU", "pV", "pW", "segV", "segW", "segU"):
+        for k in ("H", "H2", "pV", "pW", "segV", "segW"):
             t = t.replace("{%s}" % k, c[k])
         return t
     tgt = r["target"]
+    reqat = s.get("reqat", "U")
     auth = c["H2"] if tgt == "W" else c["H"]
-    path = c["p" + tgt]
+    path = {"U": "{pU}", "P": "{pU}/" + CHILD_P, "Q": "{pU}/" + CHILD_Q, "V": c["pV"], "W": c["pW"]}[tgt]
     seg = path.rsplit("/", 1)[-1]
-    d = path.rsplit("/", 1)[0]
+    d = path.rsplit("/", 1)[0] if "/" in path else "/" + c["rid"] + "/S"
     f = r["form"]
     host, port = auth.rsplit(":", 1)
     var = r.get("var", 0)
+    rel = rel_of(tgt, reqat, c)
     if f == "abs": return "http://%s%s" % (auth, path)
     if f == "path": return path
-    if f == "seg": return seg
-    if f == "dotseg": return "./" + seg
-    if f == "dotdot": return "../S/" + seg
+    if f == "seg": return rel if rel is not None else path
+    if f == "dotseg": return "./" + rel if rel is not None else updir_of(tgt, reqat, c)
+    if f == "dotdot": return updir_of(tgt, reqat, c)
     if f == "path-dots": return d + "/./" + seg if var % 2 else d + "/x/../" + seg
     if f == "netpath": return "//%s%s" % (auth, path)
     if f == "abs-SCHEME": return "HTTP://%s%s" % (auth, path)
@@ -87,30 +116,35 @@ def ref_text(r, s, c):
     raise ValueError(f)
 
 
+NAMES = ["U", "V", "W", "P", "Q"]
+
+
 def concrete(s, port, rid):
-    """URLs of one run of scenario s: U and V on host H, W on the other name of the same origin stub"""
+    """URLs of one run of scenario s"""
     H, H2 = hosts(s, port)
     c = {"H": H, "H2": H2, "rid": rid}
     c["pV"] = lab.spec_path({"headers": CC, "body": "v-" + rid, "t": "v"}, rid)
     c["pW"] = lab.spec_path({"headers": CC, "body": "w-" + rid, "t": "w"}, rid)
     c["segV"] = c["pV"].rsplit("/", 1)[1]
     c["segW"] = c["pW"].rsplit("/", 1)[1]
-    c["pU"] = "{pU}"; c["segU"] = "{segU}"          # a reference to U itself cannot be embedded in U's own spec
     hs = []
-    c["loc"] = c["cloc"] = None
+    raw = {}
     for key, name in (("loc", "Location"), ("cloc", "Content-Location")):
-        r = s.get(key)
-        if r is not None and r.get("target") == "U" and "text" not in r:
-            r = dict(r, form="empty")                 # "names U" is expressed by the empty reference (same document)
-        t = ref_text(r, s, c)
-        c[key] = t
+        t = ref_text(s.get(key), s, c)
+        raw[key] = t
         if t is not None:
-            hs.append([name, t])
+            hs.append([name, t])                      # still with {pU} / {segU}: the stub fills them in
     c["pU"] = lab.spec_path({"headers": CC, "body": "u-" + rid, "unsafe": {"status": s["status"], "headers": hs, "body": "r-" + rid}}, rid)
     c["segU"] = c["pU"].rsplit("/", 1)[1]
-    c["U"] = "http://%s%s" % (H, c["pU"])
-    c["V"] = "http://%s%s" % (H, c["pV"])
-    c["W"] = "http://%s%s" % (H2, c["pW"])
+    for key in ("loc", "cloc"):
+        c[key] = None if raw[key] is None else raw[key].replace("{pU}", c["pU"]).replace("{segU}", c["segU"])
+    c["pP"] = c["pU"] + "/" + CHILD_P
+    c["pQ"] = c["pU"] + "/" + CHILD_Q
+    for n in NAMES:
+        c[n] = "http://%s%s" % (H2 if n == "W" else H, c["p" + n])
+    c["reqat"] = s.get("reqat", "U")
+    c["pR"] = c["p" + c["reqat"]]
+    c["R"] = c[c["reqat"]]
     return c
 
 
@@ -125,8 +159,8 @@ def hexs(t):
 def to_case(s):
     c = s.get("_c") or concrete(s, STANDIN_PORT, "r")
     f = lambda t: "~" if t is None else hexs(t)
-    return "purge.run %s %d %s %s %s %s %s %s %s %s" % (hexs(s["method"]), s["status"], hexs("http"), hexs(c["H"]), hexs(c["pU"]),
-                                                       f(c["loc"]), f(c["cloc"]), hexs(c["U"]), hexs(c["V"]), hexs(c["W"]))
+    return "purge.run %s %d %s %s %s %s %s %s" % (hexs(s["method"]), s["status"], hexs("http"), hexs(c["H"]), hexs(c["pR"]),
+                                                 f(c["loc"]), f(c["cloc"]), " ".join(hexs(c[n]) for n in NAMES))
 
 
 # ------------------------------------------------------------------ implementation side
@@ -134,10 +168,19 @@ _state = {}
 
 
 def _hook(rec, spec):
-    m = rec["line"].split(" ")[0]
+    parts = rec["line"].split(" ")
+    m = parts[0]
     if m not in ("GET", "HEAD") and "unsafe" in spec:
         s2 = dict(spec)
-        s2.update(spec["unsafe"])
+        u = dict(spec["unsafe"])
+        # {pU} / {segU}: path and last segment of the scenario's U = the first three segments of this request's path
+        path = parts[1] if len(parts) > 1 else ""
+        if "://" in path:
+            path = "/" + path.split("://", 1)[1].split("/", 1)[-1]
+        segs = path.split("/")
+        pU = "/".join(segs[:4])
+        u["headers"] = [[n, v.replace("{pU}", pU).replace("{segU}", segs[3] if len(segs) > 3 else "")] for n, v in u.get("headers", [])]
+        s2.update(u)
         return s2
     return spec
 
@@ -150,9 +193,9 @@ def _one(args):
     sq, org, s, rid = args
     c = concrete(s, org.port, rid)
     s["_c"] = c
-    urls = [(c["U"], c["pU"]), (c["V"], c["pV"]), (c["W"], c["pW"])]
+    urls = [(c[n], c["p" + n]) for n in NAMES]
     try:
-        # 1. cache the three URLs, 2. make sure they are served from the cache
+        # 1. cache the five URLs, 2. make sure they are served from the cache
         for rnd in (1, 2):
             for url, path in urls:
                 r, raw = lab.get(sq.port, url)
@@ -162,10 +205,10 @@ def _one(args):
                     return "fail notcached%d arrivals=%d" % (rnd, _gets(org, rid, path))
         # 3. the unsafe request
         m = s["method"]
-        r, raw = lab.get(sq.port, c["U"], method=m, body=None if m.upper() in NOBODY else b"payload")
+        r, raw = lab.get(sq.port, c["R"], method=m, body=None if m.upper() in NOBODY else b"payload")
         if r is None or r.status != s["status"]:
             return "fail unsafe %s" % (r.status if r else "none")
-        if not any(a["line"].split(" ")[1] == c["pU"] and a["line"].split(" ")[0] not in ("GET", "HEAD") for a in org.arrivals(rid)):
+        if not any(a["line"].split(" ")[1] == c["pR"] and a["line"].split(" ")[0] not in ("GET", "HEAD") for a in org.arrivals(rid)):
             return "fail unsafe-not-forwarded"
         # 4. ask again: which URLs are fetched from the origin again?
         bits = ""
@@ -241,11 +284,12 @@ def oracle(s, obs):
     bits = obs.split()[1]
     if not is_invalidating(s["method"]) or s["status"] >= 400:
         return None
-    if bits[0] != "1":
+    ri = NAMES.index(c.get("reqat", "U"))
+    if bits[ri] != "1":
         return ("oracle:stale-hit:target", "%s %s answered %d, but the following GET of the same URL was served from the cache "
-                "without contacting the origin" % (s["method"], c["U"], s["status"]))
-    nu = norm_url(c["U"])
-    cands = {"V": (norm_url(c["V"]), bits[1]), "W": (norm_url(c["W"]), bits[2])}
+                "without contacting the origin" % (s["method"], c["R"], s["status"]))
+    nu = norm_url(c["R"])
+    cands = {n: (norm_url(c[n]), bits[i]) for i, n in enumerate(NAMES) if i != ri}
     for key, name in (("loc", "location"), ("cloc", "content-location")):
         t = c.get(key)
         if t is None:
@@ -254,7 +298,7 @@ def oracle(s, obs):
             if re.match(r"^[A-Za-z][A-Za-z0-9+.-]*:", t):      # has a scheme: an absolute URI, never merged with the base
                 tgt = norm_url(urllib.parse.urldefrag(t)[0])
             else:
-                tgt = norm_url(urllib.parse.urldefrag(urllib.parse.urljoin(c["U"], t))[0])
+                tgt = norm_url(urllib.parse.urldefrag(urllib.parse.urljoin(c["R"], t))[0])
         except ValueError:
             continue
         if tgt is None or tgt[:3] != nu[:3]:
@@ -263,7 +307,7 @@ def oracle(s, obs):
             if cu == tgt and bit != "1":
                 return ("oracle:stale-hit:%s:%s" % (name, ref_class(t)),
                         "%s %s answered %d with %s: %s, which names the same-host URL %s; the following GET of that URL was "
-                        "served from the cache without contacting the origin" % (s["method"], c["U"], s["status"], name, t, c[cn]))
+                        "served from the cache without contacting the origin" % (s["method"], c["R"], s["status"], name, t, c[cn]))
     return None
 
 
@@ -403,12 +447,13 @@ def unit_stage(res, tier):
 
 
 def run(res, tier):
-    res.rule = ("per scenario three URLs are cached through the real squid and verified to be hits (U and V on one host name of the "
-                "origin stub, W on another name of the same stub); then a random method (POST/PUT/DELETE, unknown extension "
-                "methods, mixed-case spellings, WebDAV methods, safe methods) is sent to U and answered with a random status "
-                "(70% < 400) and random Location / Content-Location naming U, V or W as absolute URL, absolute path, relative "
+    res.rule = ("per scenario five URLs are cached through the real squid and verified to be hits (U and V on one host name of the "
+                "origin stub, W on another name of the same stub, P = U/17 and Q = U/17x which have U -- and Q has P -- as a "
+                "proper textual prefix); then a random method (POST/PUT/DELETE, unknown extension "
+                "methods, mixed-case spellings, WebDAV methods, safe methods) is sent to U or to P and answered with a random status "
+                "(70% < 400) and random Location / Content-Location naming U, V, W, P or Q (so also URLs extending the request URL and URLs the request URL extends) as absolute URL, absolute path, relative "
                 "path, with dot segments, network-path reference, other letter case, fragment, other port, host prefix, no "
-                "authority, garbage; finally U, V, W are requested again and the origin arrivals counted; non-trivial = the "
+                "authority, garbage; finally all five are requested again and the origin arrivals counted; non-trivial = the "
                 "reply carried Location or Content-Location")
     std.run_lab(res, PID, tier, area="purge", gens=["purgemethods", "purgeuri"], gen_scenarios=gen_scenarios, run_impl=run_impl,
                 to_case=to_case, oracle=oracle, corr_name="PurgeModel (refetched) vs the running squid",
